@@ -595,6 +595,45 @@ func decoderCallbacksHonourContract(c *core.Ctx, rule string) {
 				target = x
 			case *ssa.MakeClosure:
 				target, _ = x.Fn.(*ssa.Function)
+			case *ssa.UnOp:
+				// a package-level variable holding the callback (benign 96): every store into it must be one function
+				if g, ok := x.X.(*ssa.Global); ok && x.Op == token.MUL {
+					var fns []*ssa.Function
+					opaque := false
+					for _, gf := range c.RepoFunctions() {
+						for _, gw := range core.Writes(gf) {
+							if gw.Kind == "global" && gw.Global == g {
+								if fn, ok := gw.Val.(*ssa.Function); ok {
+									fns = append(fns, fn)
+								} else {
+									opaque = true
+								}
+							}
+						}
+					}
+					if g.Pkg != nil {
+						if initf := g.Pkg.Func("init"); initf != nil {
+							for _, gw := range core.Writes(initf) {
+								if gw.Kind == "global" && gw.Global == g {
+									if fn, ok := gw.Val.(*ssa.Function); ok {
+										fns = append(fns, fn)
+									} else {
+										opaque = true
+									}
+								}
+							}
+						}
+					}
+					same := len(fns) > 0
+					for _, fn := range fns {
+						if fn != fns[0] {
+							same = false
+						}
+					}
+					if !opaque && same {
+						target = fns[0]
+					}
+				}
 			}
 			if target == nil {
 				c.Unknown(rule, key, w.Pos, "the stored callback is not a function or closure this rule can inspect")
@@ -729,17 +768,52 @@ func positioningByLineCounter(c *core.Ctx, rule string, pkgs []string) {
 				}
 				key := fk + " skips records"
 				good := false
-				if len(h.Instrs) > 0 {
-					if ifi, ok := h.Instrs[len(h.Instrs)-1].(*ssa.If); ok {
-						if bo, ok := ifi.Cond.(*ssa.BinOp); ok {
-							for _, op := range []ssa.Value{bo.X, bo.Y} {
-								if call, ok := op.(*ssa.Call); ok && loop[call.Block()] {
-									if o := core.CalleeObj(call); o != nil && o.Name() == "LineNum" {
-										good = true
+				// an exit test of the loop (an If inside the loop with a successor outside it) whose condition derives from a
+				// LineNum() call made inside the loop — directly, or inside a repo predicate called there (`beforeRow(i)`)
+				var usesLineNum func(v ssa.Value, d int) bool
+				usesLineNum = func(v ssa.Value, d int) bool {
+					if d > 4 {
+						return false
+					}
+					switch x := v.(type) {
+					case *ssa.BinOp:
+						return usesLineNum(x.X, d+1) || usesLineNum(x.Y, d+1)
+					case *ssa.UnOp:
+						return usesLineNum(x.X, d+1)
+					case *ssa.Call:
+						if !loop[x.Block()] && x.Parent() == f {
+							return false
+						}
+						if o := core.CalleeObj(x); o != nil && o.Name() == "LineNum" {
+							return true
+						}
+						if callee := x.Call.StaticCallee(); callee != nil && callee.Blocks != nil && core.InRepo(core.FuncPkg(callee)) {
+							for _, cb := range callee.Blocks {
+								for _, cin := range cb.Instrs {
+									if ret, ok := cin.(*ssa.Return); ok {
+										for _, r := range ret.Results {
+											if usesLineNum(r, d+1) {
+												return true
+											}
+										}
 									}
 								}
 							}
 						}
+					}
+					return false
+				}
+				for lb := range loop {
+					if len(lb.Instrs) == 0 {
+						continue
+					}
+					ifi, ok := lb.Instrs[len(lb.Instrs)-1].(*ssa.If)
+					if !ok || (loop[lb.Succs[0]] && loop[lb.Succs[1]]) {
+						continue
+					}
+					// the exit must leave towards the normal end of positioning, not towards the EOF return only: any exit test on LineNum counts
+					if usesLineNum(ifi.Cond, 0) {
+						good = true
 					}
 				}
 				c.Check(good, rule, key, core.InstrPos(skip), "the loop is controlled by the reader's LineNum() re-read on every iteration",
